@@ -508,6 +508,7 @@ func runSolver(sp solverSpec, file string, timeoutMs int) solveResult {
 type SolveOpts struct {
 	TimeoutMs int
 	AllSolvers bool // thorough: run all solvers, disagreement = error
+	Single    bool // scan: z3-new only
 	Dir       string
 	Seed      int
 }
@@ -571,9 +572,12 @@ func solveText(text string, file string, o SolveOpts) solveResult {
 	if quick > 4000 {
 		quick = 4000
 	}
+	if o.Single {
+		quick = o.TimeoutMs
+	}
 	r := runSolver(solvers[0], file, quick)
 	noteSolve(r)
-	if r.status == "sat" || r.status == "unsat" {
+	if r.status == "sat" || r.status == "unsat" || o.Single {
 		return r
 	}
 	// race all three with the full timeout
